@@ -60,3 +60,85 @@ Definition run_case (lines : list rle) (tail : Z) (sch : list Z) : sym_out :=
   | OutOfFuel => Build_sym_out 3 0 0 0 0 0 0 0 None 0 sk sc sl stab
   | Fail => Build_sym_out 2 (-1) 0 0 0 0 0 0 None 0 sk sc sl stab
   end.
+
+(* ------------------------------------------------------------------ round 4: the trajectory of a run.
+   Everything the reader and the callback of the real code can see, in order: every read() as
+   (bytes of space offered, bytes returned) and every callback as (slice length).  space() = capacity - end,
+   so this sequence pins the capacity / position / end trajectory of circular::Buffer (grow, shift) and
+   the order and sizes of the callback slices.  The events are folded into an FNV-style 64-bit hash
+   (one multiplication per number); the harness (ChunkReader + callback) computes the same hash.
+   [iter_tr] runs the SAME [step] function as [iter_pos] and only looks at the states it goes through
+   ([iter_tr_run] in ProofsTrace.v), so the model itself is unchanged. *)
+Definition MIX_INIT : Z := 14695981039346656037.
+Definition MIX_PRIME : Z := 1099511628211.
+Definition mix (h v : Z) : Z := (Z.lxor h v * MIX_PRIME) mod two64.
+
+Record tracc := mk_tr {
+  tr_hash : Z;          (* hash of the event sequence *)
+  tr_events : Z;        (* number of events *)
+  tr_grows : Z;         (* buf.grow() that changed the capacity *)
+  tr_shifts : Z;        (* iterations in which the buffer shifted (position back to 0) *)
+  tr_discards : Z;      (* recovery iterations without a newline (discard everything) *)
+  tr_recovered : Z;     (* recoveries completed *)
+  tr_zero_reads : Z;    (* read() calls that returned 0 *)
+  tr_full_reads : Z     (* read() calls offered an empty slice (buffer full) *)
+}.
+Definition init_tr : tracc := mk_tr MIX_INIT 0 0 0 0 0 0 0.
+
+Definition cstep : cstate -> stepres rle pst := step rle cllen pst recog_pst bump_pst lineno_pst.
+Definition crecovery : cstate -> cstate := recovery rle cllen pst bump_pst.
+
+Definition b2z (b : bool) : Z := if b then 1 else 0.
+
+(* what one iteration s --> r adds to the trace *)
+Definition tr_step (a : tracc) (s : cstate) (r : stepres rle pst) : tracc :=
+  let s1 := if pr s then crecovery s else s in
+  match (match r with Next s' => Some s' | Done _ s' => Some s' | StPanic _ => None end) with
+  | None => a
+  | Some s' =>
+      let h0 := tr_hash a in
+      let h1 := if pr s then mix (mix h0 2) (cbsum s1 - cbsum s) else h0 in       (* callback in recovery *)
+      let sp := space (buf s1) in
+      let n := unread s1 - unread s' in
+      let h2 := mix (mix (mix h1 1) sp) n in                                        (* read(space) = n *)
+      let cb2 := ncb s1 <? ncb s' in
+      let h3 := if cb2 then mix (mix h2 2) (cbsum s' - cbsum s1) else h2 in         (* callback after parse_more *)
+      mk_tr h3 (tr_events a + b2z (pr s) + 1 + b2z cb2)
+            (tr_grows a + b2z (b_cap (buf s) <? b_cap (buf s')))
+            (tr_shifts a + b2z ((0 <? b_pos (buf s)) && (b_pos (buf s') =? 0)
+                                || (0 <? b_pos (buf s1)) && (b_pos (buf s') =? 0)))
+            (tr_discards a + b2z (pr s && pr s1))
+            (tr_recovered a + b2z (pr s && negb (pr s1)))
+            (tr_zero_reads a + b2z (n =? 0))
+            (tr_full_reads a + b2z (sp =? 0))
+  end.
+
+Fixpoint iter_tr (p : positive) (s : cstate) (a : tracc) : stepres rle pst * tracc :=
+  match p with
+  | xH => let r := cstep s in (r, tr_step a s r)
+  | xO q => match iter_tr q s a with
+            | (Next s1, a1) => iter_tr q s1 a1
+            | ra => ra
+            end
+  | xI q => let r := cstep s in
+            let a0 := tr_step a s r in
+            match r with
+            | Next s1 => match iter_tr q s1 a0 with
+                         | (Next s2, a2) => iter_tr q s2 a2
+                         | ra => ra
+                         end
+            | _ => (r, a0)
+            end
+  end.
+
+Definition run_trace (lines : list rle) (tail : Z) (sch : list Z) : tracc :=
+  snd (iter_tr (fuel_for rle cllen lines tail) (init_st rle cllen pst init_pst lines tail sch) init_tr).
+
+(* features of a case for the input distribution of the evidence: which kind of line the parser
+   rejected (first bytes of the line it stopped at) *)
+Definition first_rest (lines : list rle) (tail : Z) (sch : list Z) : option rle :=
+  match drive_c lines tail sch with
+  | Ret (RErr c ln, s) =>
+      if (c =? 1) || (c =? 2) then nth_error (rest s) (Z.to_nat (ln - lineno_pst (ps s))) else None
+  | _ => None
+  end.
